@@ -1,10 +1,10 @@
 (* Obligation C10/order_dependent_custom_reduction.  Statement as printed by Coq from Inferno.C10.OrderProofs; proof by reference.
    This file contains nothing else, so the statement cannot be weakened quietly. *)
 From Coq Require Import List ZArith Bool Arith Reals Lra Lia Permutation.
-From Inferno Require Import Base.Num Base.NumR Gen.Bounding C10.Updater C10.KernelProofs C10.AccProofs C10.OrderProofs C10.WorldProofs C10.UpdateProofs C10.InterleaveProofs.
+From Inferno Require Import Base.Num Base.NumR Gen.Bounding C10.Updater C10.KernelAlgebra C10.AccProofs C10.OrderProofs.
 Import ListNotations.
 Open Scope R_scope.
-Theorem order_dependent_custom_reduction : exists (a a' : accR) (x : tensorW),
+Theorem order_dependent_custom_reduction : exists (a a' : accR) (x : tensor RN),
     Permutation (apos RN a) (apos RN a') /\
     aneg RN a = aneg RN a' /\ snd (acc_forward RN a x) <> snd (acc_forward RN a' x).
 Proof. exact (@Inferno.C10.OrderProofs.order_dependent_custom_reduction). Qed.
